@@ -364,6 +364,43 @@ theorem C10_check_sound (sys : Sys) (o : Outcome) (h : check sys o = true) :
   · intro e d he hd
     exact before_of_beforeB (ht4 e he d hd)
 
+/-! ## an extension listed more than once -/
+
+theorem mem_dedupExts {l : List Ext} {e : Ext} (h : e ∈ dedupExts l) : e ∈ l := by
+  induction l with
+  | nil => cases h
+  | cons x xs ih =>
+    simp only [dedupExts, List.mem_cons, List.mem_filter] at h
+    rcases h with rfl | ⟨h, _⟩
+    · exact List.mem_cons_self
+    · exact List.mem_cons_of_mem _ (ih h)
+
+/-- **one extension per id**: however often an id is listed in `service::extensions`, the service has one extension
+with that id (so by `C10_exactly_once` it is started at most once and shut down exactly once), and every listed id is there -/
+theorem C10_extensions_one_per_id (l : List Ext) :
+    ((dedupExts l).map (·.id)).Nodup ∧ (∀ e, e ∈ l → ∃ x, x ∈ dedupExts l ∧ x.id = e.id) ∧ (∀ e, e ∈ dedupExts l → e ∈ l) := by
+  refine ⟨?_, ?_, fun e => mem_dedupExts⟩
+  · induction l with
+    | nil => simp [dedupExts]
+    | cons x xs ih =>
+      simp only [dedupExts, List.map_cons, List.nodup_cons, List.mem_map, List.mem_filter]
+      refine ⟨?_, ?_⟩
+      · rintro ⟨y, ⟨_, hy⟩, hid⟩
+        simp [hid] at hy
+      · exact (List.Nodup.sublist (List.Sublist.map _ List.filter_sublist) ih)
+  · induction l with
+    | nil => intro e he; cases he
+    | cons x xs ih =>
+      intro e he
+      rcases List.mem_cons.mp he with rfl | he'
+      · exact ⟨e, by simp [dedupExts], rfl⟩
+      · obtain ⟨y, hy, hid⟩ := ih e he'
+        by_cases hx : y.id = x.id
+        · exact ⟨x, by simp [dedupExts], by rw [← hid, hx]⟩
+        · refine ⟨y, ?_, hid⟩
+          simp only [dedupExts, List.mem_cons, List.mem_filter]
+          exact Or.inr ⟨hy, by simpa using hx⟩
+
 /-! ## rejected configurations -/
 
 /-- **nothing is started on rejection**: when `service.New` fails — `graph.Build` rejects the pipelines
